@@ -36,7 +36,7 @@ CHECKS = {
     'C03': dict(
         level='exploration',
         units=[U('^TestC03$', (8, 20000), (16, 400000))],
-        essential_labels=['kind:log', 'kind:linear', 'kind:cubic', 'built:alpha', 'built:gamma', 'offset:2^30', 'offset:int32-bound', 'offset:engineered-integer-boundary', 'offset:engineered-exact-hit', 'offset:small', 'offset:default', 'probe:bin-edge', 'probe:bin-edge-neighbourhood', 'probe:binade-edge', 'probe:range-end'],
+        essential_labels=['kind:log', 'kind:linear', 'kind:cubic', 'built:alpha', 'built:gamma', 'offset:2^30', 'offset:int32-bound', 'offset:engineered-integer-boundary', 'offset:engineered-exact-hit', 'offset:small', 'offset:default', 'probe:bin-edge', 'probe:bin-edge-neighbourhood', 'probe:binade-edge', 'probe:range-end', 'top-bin-upper-bound'],
         assumptions=COMMON_ASSUMPTIONS + ["floating-point slack 64*2^-52*(1+|ln v|+(|i|+|offset|)*ln gamma) on accuracy and bin containment (DESIGN §1.1)", "the bin after the last indexable one is not asserted (its lower bound overflows for interpolated mappings)"],
     ),
     'C19': dict(
@@ -61,7 +61,7 @@ CHECKS = {
             U('^TestC04_PaginatedScenarios$', (3, 8000), (4, 200000)),
             U('^TestC04_WideWeights$', (2, 8000), (3, 200000)),
         ],
-        essential_labels=['kind:dense', 'kind:sparse', 'kind:paginated', 'event:array-shift', 'event:page-created', 'event:buffer-compacted', 'op:merge', 'op:encdec', 'op:proto', 'op:reweight', 'op:copy', 'op:clear', 'large-scale', 'shape:round-robin', 'paginated-method-mergewithproto', 'clear-refill-same-size', 'mutate-many:non-add', 'large-scale-merge-phase', 'first-read-after-mutation', 'paginated-scenario', 'wide-weights', 'weight>=2^53', 'weights-underflowed-to-zero'],
+        essential_labels=['kind:dense', 'kind:sparse', 'kind:paginated', 'event:array-shift', 'event:page-created', 'event:buffer-compacted', 'op:merge', 'op:encdec', 'op:proto', 'op:reweight', 'op:copy', 'op:clear', 'large-scale', 'shape:round-robin', 'paginated-method-mergewithproto', 'clear-refill-same-size', 'mutate-many:non-add', 'large-scale-merge-phase', 'first-read-after-mutation', 'paginated-scenario', 'wide-weights', 'weight>=2^53', 'weights-underflowed-to-zero', 'partial-underflow-lost-bins'],
         assumptions=COMMON_ASSUMPTIONS + ["weights are dyadic and bounded so that every float64 partial sum is exact (DESIGN §1.1); index spans are capped per store kind by memory"],
     ),
     'C05': dict(
@@ -72,7 +72,7 @@ CHECKS = {
             U('^TestC05_LargeScale$', (2, 150), (1, 6000)),
             U('^TestC05_WideWeights$', (3, 8000), (4, 200000)),
         ],
-        essential_labels=['kind:collow', 'kind:colhigh', 'folded', 'op-after-fold', 'merge-same-kind', 'merge-wide-into-empty', 'add-beyond-edge-after-collapse', 'wide-weights', 'weight>=2^53', 'weights-underflowed-to-zero'],
+        essential_labels=['kind:collow', 'kind:colhigh', 'folded', 'op-after-fold', 'merge-same-kind', 'merge-wide-into-empty', 'add-beyond-edge-after-collapse', 'wide-weights', 'weight>=2^53', 'weights-underflowed-to-zero', 'partial-underflow-lost-bins'],
         assumptions=COMMON_ASSUMPTIONS + ["fold(M,N) model: folding is history-independent (DESIGN §2 C05); dyadic weights"],
     ),
     'C06': dict(
@@ -102,19 +102,19 @@ CHECKS = {
     'C10': dict(
         level='exploration',
         units=[U('^TestC10$', (12, 1000, 50), (14, 8000, 80)), U('^TestC10_LongChains$', (3, 60), (2, 1500))],
-        essential_labels=['op:add', 'op:bad', 'op:badmerge', 'op:merge', 'op:decmerge', 'op:copy', 'op:clear', 'op:reweight', 'op:encdec', 'op:changemapping', 'op:fromdata', 'long-chain:absorb-merge', 'long-chain:random-merge', 'long-chain:absorb-add', 'long-chain:decode-merge', 'long-chain:copies', 'rejected-add', 'zero-weight-add', 'non-dyadic-phase', 'store:dense', 'store:sparse', 'store:paginated'],
+        essential_labels=['op:add', 'op:bad', 'op:badmerge', 'op:merge', 'op:decmerge', 'op:copy', 'op:clear', 'op:reweight', 'op:encdec', 'op:changemapping', 'op:fromdata', 'long-chain:absorb-merge', 'long-chain:random-merge', 'long-chain:absorb-add', 'long-chain:decode-merge', 'long-chain:copies', 'rejected-add', 'zero-weight-add', 'non-dyadic-phase', 'store:dense', 'store:sparse', 'store:paginated', 'long-chain:chain-merge'],
         assumptions=COMMON_ASSUMPTIONS + ["sum bound (8+2k)*2^-52*sum|v*w| plus a few subnormal ulps, k = number of reweight/rescale/decode/merge steps (DESIGN §2 C10)", "after a ChangeMapping nothing is compared with == (bin weights are no longer dyadic)", "values within [1e-50,1e50] so that unit changes keep them far inside every mapping's range"],
     ),
     'C11': dict(
         level='exploration',
         units=[U('^TestC11$', (8, 12000), (16, 100000)), U('^TestC11_HugeTotal$', (2, 8000), (4, 150000))],
-        essential_labels=['W<1', 'one-sided', 'reached-by-reweight', 'fractional-weights', 'mode:single-light', 'mode:several-light', 'mode:huge-total', 'W>=2^53', 'pos:dense', 'pos:sparse', 'pos:paginated'],
+        essential_labels=['W<1', 'one-sided', 'reached-by-reweight', 'fractional-weights', 'mode:single-light', 'mode:several-light', 'mode:huge-total', 'W>=2^53', 'pos:dense', 'pos:sparse', 'pos:paginated', 'dust-below-half-ulp-of-total'],
         assumptions=COMMON_ASSUMPTIONS + ["'within one unit of weight' is taken as distance(rank, cumulative-weight interval) <= 1 (DESIGN §2 C11)"],
     ),
     'C12': dict(
         level='exploration',
         units=[U('^TestC12$', (8, 6000), (16, 50000))],
-        essential_labels=['shape:all-negative', 'shape:all-zero', 'shape:zero+negative', 'shape:single-value', 'shape:sub-minimum', 'shape:mixed', 'after-merge', 'after-clear', 'after-decode', 'same-signed-sum', 'pos:collow', 'pos:colhigh', 'pos:paginated', 'weights-underflowed-to-zero'],
+        essential_labels=['shape:all-negative', 'shape:all-zero', 'shape:zero+negative', 'shape:single-value', 'shape:sub-minimum', 'shape:mixed', 'after-merge', 'after-clear', 'after-decode', 'same-signed-sum', 'pos:collow', 'pos:colhigh', 'pos:paginated', 'weights-underflowed-to-zero', 'partial-underflow-lost-bins'],
         assumptions=COMMON_ASSUMPTIONS + ["accuracy of min/max/sum w.r.t. raw values is asserted only when no collapsing store took part in the history"],
     ),
     'C13': dict(
